@@ -28,9 +28,12 @@ package eni
 //@ guard call IP.Allocate in commit: recv.podID == "" || recv.podID == arg0
 //@ guard call IP.Allocate in Allocate: recv.podID == "" || recv.podID == arg0
 
-//@ # the fast path marks the owner under the lock, before the reply goroutine is spawned: nobody can be offered that address in between
+//@ for C01 C06
+//@ # the fast path marks the owner under the lock, before the reply goroutine is spawned: nobody can be offered that address
+//@ # in between, and the pool balancer cannot take it for idle
 //@ guard go Local.Allocate$1 in Allocate: (ipv4 == nil || ipv4.podID == cni.PodID) && (ipv6 == nil || ipv6.podID == cni.PodID)
 
+//@ for C01
 //@ # an address the cloud no longer reports for the interface is marked invalid whether or not a pod holds it, and
 //@ # an invalid address is never offered (PeekAvailable offers only valid ones).
 //@ # c01remote: the set syncIPLocked builds from the cloud's answer (its members are exactly the reported addresses)
